@@ -53,8 +53,19 @@ __attribute__((no_sanitize("address"))) static void copy_out(char *dst) {
 __attribute__((no_sanitize("address"))) static void copy_in(const char *src) {
     for (auto &r : g_regions) { size_t n = r.hi - r.lo; for (size_t i = 0; i < n; i++) r.lo[i] = src[i]; src += n; }
 }
+extern "C" { struct pnc_global { int sec; unsigned long off, size; }; extern const struct pnc_global pnc_globals[]; }
 void globals_init() {
     g_regions.clear();
+    if (__start_pnc_data || __start_pnc_bss) {
+        for (int i = 0; pnc_globals[i].sec >= 0; i++) {
+            char *base = pnc_globals[i].sec == 0 ? __start_pnc_data : __start_pnc_bss;
+            if (!base || !pnc_globals[i].size) continue;
+            g_regions.push_back({base + pnc_globals[i].off, base + pnc_globals[i].off + pnc_globals[i].size});
+        }
+        g_gsize = 0; for (auto &r : g_regions) g_gsize += r.hi - r.lo;
+        g_pristine.assign(g_gsize, 0); copy_out(g_pristine.data());
+        return;
+    }
     if (__start_pnc_data && __stop_pnc_data > __start_pnc_data) g_regions.push_back({__start_pnc_data, __stop_pnc_data});
     if (__start_pnc_bss && __stop_pnc_bss > __start_pnc_bss) g_regions.push_back({__start_pnc_bss, __stop_pnc_bss});
     if (__start_pnc_drl && __stop_pnc_drl > __start_pnc_drl) g_regions.push_back({__start_pnc_drl, __stop_pnc_drl});
@@ -417,9 +428,15 @@ void end_run_cleanup() {
 
 // ---------------------------------------------------------------------- C seams used by the library object
 extern "C" {
-void *pncv_malloc(size_t n) { void *p = malloc(n); if (p && n) memset(p, 0xCB, n); /* deterministic content of uninitialised library memory */ sim::track(p, n); return p; }
-void *pncv_calloc(size_t a, size_t b) { void *p = calloc(a, b); sim::track(p, a * b); return p; }
+static void refuse_huge(size_t n) {
+    // our programs and files are tiny: a single request above 256 MiB can only come from an unvalidated count (C19 "memory related to the size of the file")
+    if (sim::g) sim::g->st.max_single_alloc = (long)std::min<size_t>(n, (size_t)1 << 62);
+    if (sim::g && sim::cur_rank() >= 0) sim::violation("oracle:alloc-bound", "single allocation of " + std::to_string(n) + " bytes requested @" + sim::lib_site());
+}
+void *pncv_malloc(size_t n) { if (n > (1ULL << 28)) { refuse_huge(n); return nullptr; } void *p = malloc(n); if (p && n) memset(p, 0xCB, n); /* deterministic content of uninitialised library memory */ sim::track(p, n); return p; }
+void *pncv_calloc(size_t a, size_t b) { if (a && b > (1ULL << 28) / a) { refuse_huge(a * b); return nullptr; } void *p = calloc(a, b); sim::track(p, a * b); return p; }
 void *pncv_realloc(void *q, size_t n) {
+    if (n > (1ULL << 28)) { refuse_huge(n); return nullptr; }
     size_t oldn = 0;
     if (q && sim::allocs) { auto it = sim::allocs->find(q); if (it != sim::allocs->end()) oldn = it->second.size; }
     if (q) sim::untrack(q);
